@@ -1,5 +1,6 @@
 """c04 — generated Flow code against the flow semantics; see gen_common.py."""
 import gen_common
+import par_common
 
 DEP_FILES = ["FlowSemModel.v", "FlowSemProofs.v"]
 PID = "C04"
@@ -8,4 +9,5 @@ PID = "C04"
 def run(chk):
     chk.recheck_proofs()
     gen_common.apply(chk, PID)
+    par_common.apply(chk, PID)
     chk.assumptions += gen_common.ASSUMPTIONS
